@@ -1679,7 +1679,7 @@ func (t *translator) ffunction(tg ftarget, from ast.Node) *sig {
 
 	partial := tg.local != "" || tg.loopBody || tg.loopCond
 	c := &fctx{t: t, pkg: p, imp: t.imports(p.files[p.fileOf[fd]]), label: label, declPos: map[token.Pos]string{}, nameCnt: map[string]int{},
-		body: fd.Body, fmode: true, partial: partial, intPow: tg.intFile, lenient: tg.intFile && partial}
+		body: fd.Body, fmode: true, partial: partial, intPow: tg.intFile, lenient: tg.intFile && partial, curFunc: fd}
 	if tg.local != "" {
 		c.label = label + " (value " + tg.local + ")"
 	}
@@ -1943,6 +1943,19 @@ func (t *translator) ffunction(tg ftarget, from ast.Node) *sig {
 				}
 				for _, n := range vs.Names {
 					bindVar(n, c.goType(vs.Type))
+				}
+			}
+		}
+		// a counter declared in the for clause (`for i := int64(0); ..`) takes the place a `var i int64` before the loop would have
+		if in, ok := loop.Init.(*ast.AssignStmt); ok && in.Tok == token.DEFINE {
+			for i, l := range in.Lhs {
+				id, ok := l.(*ast.Ident)
+				if !ok || id.Name == "_" || len(in.Rhs) != len(in.Lhs) || c.top.vars[id.Name] != nil {
+					continue
+				}
+				_, ty := c.expr(c.top, in.Rhs[i])
+				if ty.k == kZ || ty.k == kF || ty.k == kBool {
+					bindVar(id, pureT(ty))
 				}
 			}
 		}
